@@ -11,7 +11,8 @@ import json;m=json.load(open('$d/meta.json'));c=m.get('confirmed_by_verif',{})
 print(' '.join(c.get('caught_by') or [c.get('check') or m['property']]))")
   out=$(SKIP_SUITE=1 bash tools/seedcheck.sh $d $checks 2>&1)
   last=$(echo "$out" | awk '/^== /{buf=""} {buf=buf"\n"$0} END{print buf}')
-  if echo "$last" | grep -q "^VIOLATION"; then echo "caught  $n ($checks)"; else echo "MISSED  $n ($checks)"; fi
+  if echo "$last" | grep -q "PATCH DOES NOT APPLY"; then echo "STALE   $n (patch does not apply to HEAD)";
+  elif echo "$last" | grep -q "^VIOLATION"; then echo "caught  $n ($checks)"; else echo "MISSED  $n ($checks)"; fi
 }
 export -f one
 ls -d seeded/*${F}*/ | sed 's#/$##' | xargs -P $J -I{} bash -c 'one {}'
